@@ -49,8 +49,10 @@ func TestHeartbeatHammer(t *testing.T) {
 			h.fx.obs.sample(h.fx.feat)
 			n, list := h.fx.countAfter(h.stopped)
 			running := h.fx.hm.IsHeartbeatRunning()
+			// the batch was observed for four periods after its last stop: a stopped stream is gone by
+			// now, one that is not has been counted - either way there is nothing to wait for
+			h.fx.leaked = true
 			if n > 1 || running {
-				h.fx.leaked = true
 				survivors++
 				if firstSurvivor == "" {
 					firstSurvivor = fmt.Sprintf("round %d: %d refreshes within %v after the final StopHeartbeat returned (%s), IsHeartbeatRunning()=%v", h.round, n, time.Since(h.stopped).Round(time.Millisecond), list, running)
